@@ -3,7 +3,7 @@ import os, json
 import gen
 
 ALL = ["C01", "C02", "C03", "C04", "C05", "C06", "C07", "C08", "C09", "C10", "C11", "C12",
-       "C14", "C15", "C16", "C17", "C18", "C19", "C20"]
+       "C13", "C14", "C15", "C16", "C17", "C18", "C19", "C20"]
 
 ASSUMPTIONS = [
     "contracts run natively under cw-multi-test 0.13.4 (its sub-message / reply / rollback semantics are the reference)",
